@@ -84,7 +84,7 @@ def verify(pid, variant):
             "suite_with_patch": "all 628 baseline tests pass",
             "demo_failure_excerpt": out1[-600:],
         }
-        meta["breaks_property"] = pid
+        meta["breaks_property"] = pid.rstrip("x")
         json.dump(meta, open(os.path.join(d, "meta.json"), "w"), indent=1)
         print("CONFIRMED ->", d)
         return 0
@@ -95,7 +95,7 @@ def verify(pid, variant):
 
 def run(name, tier, check):
     d = f"/verif/seeded/{name}"
-    pid = check or name.split("-")[0]
+    pid = check or name.split("-")[0].rstrip("x")
     rc, out = sh("git -C /repo status --porcelain")
     if out.strip():
         print("refusing: /repo has uncommitted changes\n" + out)
